@@ -21,13 +21,21 @@ Proof.
   intro H. unfold upd. rewrite app_length, firstn_length. cbn [length]. rewrite skipn_length. lia.
 Qed.
 
+Lemma skipn_skipn' {A} (x y : nat) (l : list A) : skipn x (skipn y l) = skipn (x + y) l.
+Proof.
+  revert l; induction y as [|y IH]; intro l.
+  - rewrite Nat.add_0_r. reflexivity.
+  - destruct l as [|a l]; [rewrite !skipn_nil; reflexivity|].
+    rewrite Nat.add_succ_r. cbn [skipn]. apply IH.
+Qed.
+
 Lemma skipn_upd b i v s : (i < length b)%nat -> (i < s)%nat -> skipn s (upd b i v) = skipn s b.
 Proof.
   intros Hi Hs. unfold upd. rewrite skipn_app. rewrite firstn_length.
   replace (Nat.min i (length b)) with i by lia.
   rewrite (skipn_all2 (firstn i b)) by (rewrite firstn_length; lia).
   cbn [app]. destruct (s - i)%nat as [|k] eqn:E; [lia|].
-  cbn [skipn]. rewrite skipn_skipn. f_equal. lia.
+  cbn [skipn]. rewrite skipn_skipn'. f_equal. lia.
 Qed.
 
 Lemma skipn_cons_inv {A} (l : list A) : forall s c rest,
